@@ -39,5 +39,11 @@ for d in sorted(glob.glob('seeded/*/patch.diff')):
         if c == 1:
             exp[q] = 1
     idx[d] = exp
+# behaviour-preserving refactorings written by independent sub-agents: silent for the properties whose code they touch
+AREA = {'aes': ['C02', 'C03', 'C09', 'C10', 'C14'], 'cli': ['C12', 'C15', 'C16', 'C17'], 'driver': ['C02', 'C05', 'C06', 'C08', 'C11', 'C12', 'C13', 'C15', 'C18'],
+        'hash': ['C05', 'C07', 'C08', 'C11'], 'hbuf': ['C05', 'C07', 'C08'], 'pipeline': ['C01', 'C03', 'C04', 'C11', 'C14', 'C15']}
+for d in sorted(glob.glob('equiv/*/patch.diff')):
+    area = os.path.basename(os.path.dirname(d)).split('-')[0]
+    idx[d] = {q: 0 for q in AREA.get(area, ALL)}
 json.dump(idx, open('mutants/INDEX.json', 'w'), indent=1, sort_keys=True)
 print(len(idx), 'variants indexed')
